@@ -48,7 +48,7 @@ KANI_HOME = os.path.expanduser("~/.kani/kani-0.68.0")
 KANI_LIB_C = os.path.join(KANI_HOME, "library/kani/kani_lib.c")
 TRIPLE = "x86_64-unknown-linux-gnu"
 MAX_REPLAYS = 3  # native replays per run that end in a confirmed violation; later counterexamples are listed only
-TOTAL_MEM_GB = int(os.environ.get("VERIF_MEM_GB", "54"))  # of 62; leave room for cargo/rustc and the OS
+TOTAL_MEM_GB = int(os.environ.get("VERIF_MEM_GB", "56"))  # of 62; leave room for cargo/rustc and the OS
 NJOBS = int(os.environ.get("VERIF_JOBS", "16"))
 
 CBMC_BASE = [
@@ -514,7 +514,8 @@ def run_inst_once(inst, h, workdir, use_unwindset):
         # user assertions first, then Kani/Rust-inserted checks
         hard.sort(key=lambda i: 0 if i["class"] == "assertion" else 1)
         first = hard[0]
-        res.values = fetch_trace_values(res.cmd, first["property"], workdir, safe, inst)
+        # a reachability witness is expected to fail and is never replayed: no trace needed
+        res.values = fetch_trace_values(res.cmd, first["property"], workdir, safe, inst) if inst.expect == "pass" else []
         res.failed = [{k: v for k, v in i.items() if k != "trace"} for i in hard]
         res.status = "fail"
         res.reason = "%s at %s" % (first["description"], first["location"])
@@ -654,13 +655,29 @@ def run_all(insts, harnesses, workdir, on_result=None):
     cond = threading.Condition(lock)
     state = {"mem": 0, "running": 0}
     order = sorted(insts, key=lambda i: (-i.mem_gb, -i.timeout))  # heaviest (= longest) first: they start at t=0
+    pending = [i.name for i in order]
+
+    def may_start(inst):
+        # first fit in priority order: an instance starts only if no earlier pending instance would fit now
+        # (otherwise small jobs keep taking the memory a heavy one waits for, and the heavy one runs last, alone)
+        if state["running"] >= NJOBS:
+            return False
+        if state["running"] == 0:
+            return pending[0] == inst.name
+        by_name = {i.name: i for i in order}
+        for n in pending:
+            if state["mem"] + by_name[n].mem_gb <= TOTAL_MEM_GB:
+                return n == inst.name
+        return False
 
     def worker(inst):
         with cond:
-            while state["running"] >= NJOBS or (state["running"] > 0 and state["mem"] + inst.mem_gb > TOTAL_MEM_GB):
+            while not may_start(inst):
                 cond.wait()
+            pending.remove(inst.name)
             state["running"] += 1
             state["mem"] += inst.mem_gb
+            cond.notify_all()
         try:
             h = harnesses[inst.crate].get(inst.name)
             if h is None:
@@ -687,7 +704,7 @@ def run_all(insts, harnesses, workdir, on_result=None):
                                                  "%d props, %d/%d covers, %d vars, %d MB" % (r.nprops, sum(r.covers.values()), len(r.covers), r.vars, r.peak_rss_mb)))
         return r
 
-    with cf.ThreadPoolExecutor(max_workers=max(NJOBS, 1) * 2) as ex:
+    with cf.ThreadPoolExecutor(max_workers=max(len(order), 1)) as ex:  # one thread per instance: may_start needs every pending one waiting
         list(ex.map(worker, order))
     return [results[i.name] for i in insts]
 
